@@ -74,6 +74,7 @@ pub fn scenarios(thorough: bool) -> Vec<Scenario> {
 }
 
 pub fn run(run: &Run) {
+    long_histories(run, run.thorough());
     for sc in scenarios(run.thorough()) {
         sample_alphabet(run, &sc);
         let st = run_scenario(run, &sc, 2_000_000);
